@@ -123,6 +123,106 @@ type c17World struct {
 	// pod on a new node
 	unrestricted bool
 	xDisturbed   bool // some reconcile of the history had a read fault or an event inside it (outside that theorem's model)
+
+	// ----- the job's own reservation template (ext3: what the controller WRITES when it creates the reservation) -----
+	tm *c17Tmpl
+
+	// ----- lagging informer (harness lagging): the job Get of a reconcile is served an OLDER version of the job -----
+	lagMode   bool
+	lagK      int                            // serve the version k writes back (clamped to the oldest recorded one)
+	lagServed int                            // how many versions back the last job Get was actually served
+	lagOp     bool                           // the running reconcile is a `lagrec` op
+	versions  []*sev1alpha1.PodMigrationJob // every version of the job since the last controller (re)start, oldest first
+	noJobEnv  bool                           // the environment never writes the job object (no pause / arbitration annotation)
+}
+
+// c17Tmpl: Spec.ReservationOptions.Template as a user may write it (no ReservationRef).
+type c17Tmpl struct {
+	ao        int  // Spec.AllocateOnce: 0 nil, 1 true, 2 false
+	name      bool // ObjectMeta.Name set (to the name the controller would choose anyway) / empty
+	ttl       int  // Spec.TTL: 0 nil, n+1 = n seconds
+	expires   bool // Spec.Expires set
+	userLabel bool // a label of the user's own
+	createdBy bool // the user wrote a created-by label of his own (overwritten by the controller)
+	podTmpl   bool // Spec.Template given (with a NodeName) / nil (copied from the pod)
+}
+
+func c17GenTmpl(r *vRand) *c17Tmpl {
+	return &c17Tmpl{ao: r.Intn(3), name: r.Bool(), ttl: []int{0, 0, 1, 101}[r.Intn(4)], expires: r.Chance(1, 4),
+		userLabel: r.Bool(), createdBy: r.Chance(1, 4), podTmpl: r.Chance(1, 3)}
+}
+
+const (
+	c17UserLabel = "verif.c17/user"
+	c17TmplLabel = "verif.c17/user-pod-template"
+)
+
+func (tm *c17Tmpl) build() *sev1alpha1.ReservationTemplateSpec {
+	t := &sev1alpha1.ReservationTemplateSpec{}
+	switch tm.ao {
+	case 1:
+		t.Spec.AllocateOnce = ptr.To(true)
+	case 2:
+		t.Spec.AllocateOnce = ptr.To(false)
+	}
+	if tm.name {
+		t.Name = c17ResvName
+	}
+	if tm.ttl > 0 {
+		t.Spec.TTL = &metav1.Duration{Duration: time.Duration(tm.ttl-1) * time.Second}
+	}
+	if tm.expires {
+		t.Spec.Expires = &metav1.Time{Time: c17T0.Add(24 * time.Hour)}
+	}
+	if tm.userLabel || tm.createdBy {
+		t.Labels = map[string]string{}
+		if tm.userLabel {
+			t.Labels[c17UserLabel] = "1"
+		}
+		if tm.createdBy {
+			t.Labels[reservation.LabelCreatedBy] = "the-user"
+		}
+	}
+	if tm.podTmpl {
+		t.Spec.Template = &corev1.PodTemplateSpec{ObjectMeta: metav1.ObjectMeta{Labels: map[string]string{c17TmplLabel: "1"}},
+			Spec: corev1.PodSpec{NodeName: "n9", SchedulerName: "koord-scheduler"}}
+	}
+	return t
+}
+
+// c17EffAO: the effective allocate-once of a Reservation object as the API defines it (nil defaults to true); written out
+// here, not taken from the code under test.
+func c17EffAO(r *sev1alpha1.Reservation) bool {
+	return r.Spec.AllocateOnce == nil || *r.Spec.AllocateOnce
+}
+
+// consume: the scheduler's reservation controller, played faithfully (syncStatus): a sibling pod that was allocated from
+// the (scheduled) reservation becomes its current owner; the phase becomes Succeeded only for an allocate-once
+// reservation, a reusable one stays Available.
+func (w *c17World) consume(uid int) {
+	r := w.getResv()
+	if r == nil || r.Status.NodeName == "" {
+		w.h.Tag("env:consume-impossible(no scheduled reservation)")
+		return
+	}
+	ao := c17EffAO(r)
+	r.Status.CurrentOwners = []corev1.ObjectReference{{Namespace: c17NS, Name: c17BPodName, UID: types.UID(c17Name("u", uid))}}
+	if ao {
+		r.Status.Phase = sev1alpha1.ReservationSucceeded
+		found := false
+		for i := range r.Status.Conditions {
+			if c := &r.Status.Conditions[i]; c.Type == sev1alpha1.ReservationConditionReady && c.Reason != sev1alpha1.ReasonReservationExpired {
+				c.Status, c.Reason, found = sev1alpha1.ConditionStatusFalse, sev1alpha1.ReasonReservationSucceeded, true
+			}
+		}
+		if !found {
+			r.Status.Conditions = append(r.Status.Conditions, sev1alpha1.ReservationCondition{Type: sev1alpha1.ReservationConditionReady,
+				Status: sev1alpha1.ConditionStatusFalse, Reason: sev1alpha1.ReasonReservationSucceeded})
+		}
+	}
+	w.must(w.base.Update(context.TODO(), r), "consume reservation")
+	w.h.Op("consume %d %d", uid, vB(ao))
+	w.h.Tag(fmt.Sprintf("env:consumed-by-sibling/allocate-once=%v", ao))
 }
 
 func (w *c17World) nodeRecorded() bool {
@@ -324,6 +424,18 @@ func (w *c17World) funcs() interceptor.Funcs {
 	return interceptor.Funcs{
 		Get: func(ctx context.Context, c client.WithWatch, key client.ObjectKey, obj client.Object, opts ...client.GetOption) error {
 			if !w.xmode {
+				if job, isJob := obj.(*sev1alpha1.PodMigrationJob); isJob && w.lagMode {
+					// the informer cache the controller reads from may LAG: serve the version k writes back
+					w.lagServed = 0
+					if idx := len(w.versions) - 1 - w.lagK; w.lagK > 0 && len(w.versions) > 1 {
+						if idx < 0 {
+							idx = 0
+						}
+						w.lagServed = len(w.versions) - 1 - idx
+						w.versions[idx].DeepCopyInto(job)
+						return nil
+					}
+				}
 				return c.Get(ctx, key, obj, opts...)
 			}
 			kind := int64(9)
@@ -352,6 +464,11 @@ func (w *c17World) funcs() interceptor.Funcs {
 			case *sev1alpha1.PodMigrationJob:
 				if !w.write(1, 0) {
 					return c17ErrInjected
+				}
+				if w.lagMode {
+					err := c.Update(ctx, obj, opts...)
+					w.jobWritten(err)
+					return err
 				}
 			case *sev1alpha1.Reservation:
 				if !w.write(4, 0) {
@@ -383,10 +500,26 @@ func (w *c17World) funcs() interceptor.Funcs {
 				if !w.write(2, 0) {
 					return c17ErrInjected
 				}
+				if w.lagMode {
+					err := c.SubResource(sub).Update(ctx, obj, opts...)
+					w.jobWritten(err)
+					return err
+				}
 			}
 			return c.SubResource(sub).Update(ctx, obj, opts...)
 		},
 	}
+}
+
+// jobWritten (lagging mode): a job write that reached the API server either made a new version (recorded: a lagging
+// informer may serve any of them later) or was refused (conflict on a stale resourceVersion = a failed API call).
+func (w *c17World) jobWritten(err error) {
+	if err != nil {
+		w.failLast()
+		w.h.Tag("lag:job-write-refused-by-api-server")
+		return
+	}
+	w.versions = append(w.versions, w.getJob())
 }
 
 // newReconciler = "controller (re)start": the template built by the package's newTestReconciler, with this
@@ -414,6 +547,11 @@ func (w *c17World) newReconciler() {
 	r.reconcilerUID = types.UID(fmt.Sprintf("c%d", w.ctrlUID))
 	w.r = r
 	w.applyLimit()
+	// a restarted controller LISTs: its cache starts from the current version
+	w.versions = w.versions[:0]
+	if w.lagMode {
+		w.versions = append(w.versions, w.getJob())
+	}
 }
 
 func (w *c17World) applyLimit() {
@@ -664,7 +802,9 @@ func (w *c17World) setResv(x *c17Resv) {
 	} else {
 		r.Spec.Owners = []sev1alpha1.ReservationOwner{ctrlOwner}
 	}
-	r.Spec.AllocateOnce = ptr.To(true)
+	if old == nil {
+		r.Spec.AllocateOnce = ptr.To(true) // an environment-made reservation; one the controller wrote keeps what was written
+	}
 	r.Status = sev1alpha1.ReservationStatus{Phase: c17RPhases[x.phase], NodeName: c17Name("n", x.node)}
 	switch x.sched {
 	case 1:
@@ -847,7 +987,36 @@ func (w *c17World) oracleEvict(job *sev1alpha1.PodMigrationJob, pod *corev1.Pod)
 		if len(r.Status.CurrentOwners) == 0 || r.Status.CurrentOwners[0].UID != pod.UID {
 			w.h.Fail("C17:evict-unsecured:bound-other", "Evict called while the reservation is consumed by another pod")
 		}
+	} else if len(r.Status.CurrentOwners) > 0 && r.Status.CurrentOwners[0].UID != pod.UID {
+		// "bound to some other pod" read off the current owners, not only off the phase
+		if !c17EffAO(r) {
+			// a reusable reservation stays Available while a sibling pod holds it (syncStatus)
+			w.h.Fail("C17:evict-unsecured:bound-other", "Evict called while the (reusable, allocateOnce=false) reservation is held by another pod %q (phase %q)", r.Status.CurrentOwners[0].UID, r.Status.Phase)
+		} else {
+			// an allocate-once reservation with a current owner that is not Succeeded: a state the scheduler's syncStatus never
+			// writes (owners and Succeeded go in one status update); only the generator's odd-state events make it
+			w.h.Tag("evict:owner-on-allocate-once-not-succeeded(unreachable-scheduler-state)")
+		}
 	}
+}
+
+// oracleWritten: the reservation a migration job creates must be allocate-once (a reusable one could be handed to a sibling
+// pod and still look Available to the controller); evaluated on the object read back from the API server.
+func (w *c17World) oracleWritten(created bool) {
+	r := w.getResv()
+	if r == nil || !created {
+		return
+	}
+	if !c17EffAO(r) {
+		w.h.Fail("C17:reservation-not-allocate-once", "the migration controller wrote Reservation %s with spec.allocateOnce=false (template allocateOnce code %d)", r.Name, w.tmplAO())
+	}
+}
+
+func (w *c17World) tmplAO() int {
+	if w.tm == nil {
+		return -1
+	}
+	return w.tm.ao
 }
 
 // ---------- one reconcile ----------
@@ -875,10 +1044,18 @@ func (w *c17World) reconcileX(faults, rfault uint64, script []c17Ev) {
 	}
 }
 
+// reconcileLag: one reconcile whose job Get is answered by a lagging informer cache (k versions back).
+func (w *c17World) reconcileLag(k int, faults uint64) {
+	w.lagK, w.lagServed, w.lagOp = k, 0, true
+	w.reconcileOp(faults, fmt.Sprintf("lagrec %d %d", k, faults))
+	w.lagK, w.lagOp = 0, false
+}
+
 func (w *c17World) reconcileOp(faults uint64, opLine string) {
 	h := w.h
 	before := w.getJob()
 	resvBefore := w.getResv()
+	podBefore := w.curPod()
 	w.faults, w.nw, w.acts = faults, 0, w.acts[:0]
 	w.evictFailed = false
 	w.nodeBefore = before.Status.NodeName
@@ -926,6 +1103,53 @@ func (w *c17World) reconcileOp(faults uint64, opLine string) {
 	} else {
 		h.Obs("resv 1 %d %d", vB(rv.pendingMode), vB(rv.orderLabel))
 	}
+	// the Reservation this reconcile WROTE (created), read back from the API server
+	created := false
+	if now := w.getResv(); resvBefore == nil && now != nil && now.Labels[reservation.LabelCreatedBy] == reservation.DefaultCreator {
+		created = true
+		h.Tag(fmt.Sprintf("created-reservation:template-allocate-once-code=%d", w.tmplAO()))
+		if !w.xmode {
+			ao, ttl, owners := 0, 0, 0
+			if now.Spec.AllocateOnce != nil {
+				ao = 2 - vB(*now.Spec.AllocateOnce)
+			}
+			if now.Spec.TTL != nil {
+				ttl = int(now.Spec.TTL.Duration/time.Second) + 1
+			}
+			for _, o := range now.Spec.Owners {
+				switch {
+				case o.Object != nil && o.Controller == nil && o.LabelSelector == nil:
+					owners = 2
+				case o.Controller != nil && owners == 0:
+					owners = 1
+				}
+			}
+			nodeCleared, userTmpl, skip := false, false, false
+			if t := now.Spec.Template; t != nil {
+				nodeCleared = t.Spec.NodeName == ""
+				userTmpl = t.Labels[c17TmplLabel] == "1"
+				if a := t.Spec.Affinity; podBefore != nil && a != nil && a.NodeAffinity != nil && a.NodeAffinity.RequiredDuringSchedulingIgnoredDuringExecution != nil {
+					for _, term := range a.NodeAffinity.RequiredDuringSchedulingIgnoredDuringExecution.NodeSelectorTerms {
+						for _, m := range term.MatchFields {
+							if m.Key == "metadata.name" && m.Operator == corev1.NodeSelectorOpNotIn && len(m.Values) == 1 && m.Values[0] == c17Name("n", podBefore.node) {
+								skip = true
+							}
+						}
+					}
+				}
+			}
+			_, order := now.Labels[extension.LabelReservationOrder]
+			h.Obs("wresv %d %d %d %d %d %d %d %d %d %d", ao, ttl, vB(now.Spec.Expires != nil), owners, 1, vB(order),
+				vB(now.Labels[c17UserLabel] == "1"), vB(nodeCleared), vB(userTmpl), vB(skip))
+		}
+	}
+	w.oracleWritten(created)
+	if w.lagOp {
+		h.Obs("lag %d", w.lagServed)
+		if w.lagServed > 0 {
+			h.Tag(fmt.Sprintf("lag:served-%d-back/acted=%v", w.lagServed, len(w.acts) > 0))
+		}
+	}
 	if len(w.acts) > 0 {
 		h.Nontrivial()
 	}
@@ -965,7 +1189,9 @@ func (w *c17World) reconcileOp(faults uint64, opLine string) {
 	wasLive := !terminal(before.Status.Phase) && before.Status.Phase != sev1alpha1.PodMigrationJobAborted
 	becameTimeout := wasLive && st.Phase == sev1alpha1.PodMigrationJobFailed && st.Reason == sev1alpha1.PodMigrationJobReasonTimeout
 	expiredNow := w.ttl > 0 && w.now >= w.ttl
-	if becameTimeout || (expiredNow && wasLive && !before.Spec.Paused && !ignored && !faultHit) {
+	// (a reconcile that was served a stale job by a lagging informer and declined to act owes nothing: the requeue will)
+	staleDeclined := w.lagOp && w.lagServed > 0 && len(w.acts) == 0
+	if becameTimeout || (expiredNow && wasLive && !before.Spec.Paused && !ignored && !faultHit && !staleDeclined) {
 		h.Tag("ttl:expired-reconciled")
 		if w.midFired {
 			// the environment (re-)created / changed the reservation inside this very reconcile: nothing to demand
@@ -1166,6 +1392,10 @@ func (w *c17World) envEvent(r *vRand, helpful bool) {
 		w.setBPod(r.Range(0, 2))
 		h.Tag("env:bound-pod")
 	case 15:
+		if w.noJobEnv {
+			w.consume(r.Range(7, 9))
+			return
+		}
 		job.Spec.Paused = !job.Spec.Paused
 		w.must(w.base.Update(context.TODO(), job), "pause job")
 		h.Op("pause %d", vB(job.Spec.Paused))
@@ -1263,10 +1493,18 @@ type c17Fix struct {
 	fresh    bool // reservation-first, explicit mode, TTL 300, valid PodRef, no ref, phase "", pod on node 1, no reservation
 	midway   bool // like fresh but Running with a ReservationRef and an existing pending reservation
 	refShape int
+	tm       *c17Tmpl // the job's own reservation template (fresh only)
+	lag      bool     // lagging-informer mode: job versions are recorded, the environment never writes the job
 }
 
 func c17InitCase(h *vHarness, r *vRand, tmpl *Reconciler, base client.WithWatch, fix *c17Fix) *c17World {
 	w := &c17World{h: h, tmpl: tmpl}
+	if fix != nil && fix.lag {
+		w.lagMode, w.noJobEnv = true, true
+		if !fix.fresh && !fix.midway {
+			fix = nil
+		}
+	}
 	// one fake API server for the whole run (building one costs ~20 ms); every case starts from an empty one
 	w.base = base
 	for _, o := range []client.Object{
@@ -1297,7 +1535,12 @@ func c17InitCase(h *vHarness, r *vRand, tmpl *Reconciler, base client.WithWatch,
 	evictAnno := r.Chance(1, 8)
 	w.ctrlUID = 1
 	createdBy := []int{0, 0, 0, 1, 1, 2}[r.Intn(6)]
+	var tm *c17Tmpl
+	if r.Chance(1, 4) {
+		tm = c17GenTmpl(r)
+	}
 	if fix != nil && (fix.fresh || fix.midway) {
+		tm = fix.tm
 		specMode, dflt, viaCtx = 1, r.Range(0, 2), false
 		w.ttl, podRefValid, podUID, resvRef, evictAnno, createdBy = 300, true, 0, fix.midway, false, 0
 		refShape = fix.refShape
@@ -1330,9 +1573,14 @@ func c17InitCase(h *vHarness, r *vRand, tmpl *Reconciler, base client.WithWatch,
 		job.Spec.TTL = &metav1.Duration{}
 	}
 	if resvRef {
+		tm = nil
 		job.Spec.ReservationOptions = &sev1alpha1.PodMigrateReservationOptions{ReservationRef: c17Ref(refShape)}
 		h.Tag(fmt.Sprintf("init:ref-shape=%d", refShape))
+	} else if tm != nil {
+		job.Spec.ReservationOptions = &sev1alpha1.PodMigrateReservationOptions{Template: tm.build()}
+		h.Tag(fmt.Sprintf("init:template/allocate-once-code=%d", tm.ao))
 	}
+	w.tm = tm
 	if evictAnno {
 		job.Annotations[evictionsutil.EvictPodAnnotationKey] = "true"
 	}
@@ -1415,6 +1663,9 @@ func c17InitCase(h *vHarness, r *vRand, tmpl *Reconciler, base client.WithWatch,
 	h.Op("%s", strings.TrimSpace(fmt.Sprintf("init %d %d %d %d %d %d %d %d %d %d %d %d %d %d %s",
 		0, 10+c17ModeCode(job.Spec.Mode)+3*dflt, w.ttl, vB(podRefValid), podUID, vB(resvRef), vB(evictAnno), createdBy,
 		c17PhaseCode(st.Phase), c17StatusCode(st.Status), c17ReasonCode(st.Reason), c17Code(st.NodeName, "n"), 0, len(st.Conditions), vInts(flat))))
+	if tm != nil {
+		h.Op("tmpl %d %d %d %d %d %d %d", tm.ao, vB(tm.name), tm.ttl, vB(tm.expires), vB(tm.userLabel), vB(tm.createdBy), vB(tm.podTmpl))
+	}
 	w.newReconciler()
 	h.Op("restart %d", w.ctrlUID)
 	h.Tag(fmt.Sprintf("init:phase=%s", st.Phase))
@@ -1476,17 +1727,49 @@ func TestVerifC17(t *testing.T) {
 		if r == nil {
 			continue
 		}
-		w := c17InitCase(h, r, tmpl, base, nil)
-
-		// ----- the history -----
+		var w *c17World
 		faultFree := r.Bool()
-		helpful := r.Chance(2, 3)
-		steps := r.Range(4, 16)
-		for s := 0; s < steps; s++ {
-			if r.Chance(11, 20) {
-				w.reconcile(c17GenFaults(r, faultFree))
-			} else {
-				w.envEvent(r, helpful && r.Chance(3, 4))
+		if idx%8 == 5 {
+			// directed: a fresh job with its OWN reservation template; the controller creates the reservation, the scheduler
+			// (played faithfully) schedules it on another node, and a SIBLING pod consumes it before / after the eviction
+			w = c17InitCase(h, r, tmpl, base, &c17Fix{fresh: true, tm: c17GenTmpl(r)})
+			w.reconcile(c17GenFaults(r, faultFree || r.Chance(2, 3)))
+			if w.getResv() == nil {
+				w.reconcile(0)
+			}
+			if rv := w.curResv(); rv != nil {
+				rv.phase, rv.node, rv.sched, rv.msg = 2, 2, 1, 0
+				w.setResv(rv)
+				if r.Chance(2, 3) {
+					w.consume(r.Range(7, 9))
+				}
+			}
+			for s, steps := 0, r.Range(2, 7); s < steps; s++ {
+				switch c := r.Intn(10); {
+				case c < 6:
+					w.reconcile(c17GenFaults(r, faultFree))
+				case c < 8:
+					w.consume(r.Range(7, 9))
+				default:
+					w.envEvent(r, r.Bool())
+				}
+			}
+			h.Tag("stream:directed-template")
+		} else {
+			w = c17InitCase(h, r, tmpl, base, nil)
+
+			// ----- the history -----
+			helpful := r.Chance(2, 3)
+			steps := r.Range(4, 16)
+			for s := 0; s < steps; s++ {
+				switch c := r.Intn(40); {
+				case c < 22:
+					w.reconcile(c17GenFaults(r, faultFree))
+				case c < 24:
+					w.consume(r.Range(7, 9))
+				default:
+					w.envEvent(r, helpful && r.Chance(3, 4))
+				}
 			}
 		}
 		w.reconcile(c17GenFaults(r, faultFree))
@@ -1502,6 +1785,78 @@ func TestVerifC17(t *testing.T) {
 		"Reconcile with a write-fault mask (job update, status update, reservation create/update/delete, evict; half of the histories fault-free) interleaved with environment events " +
 		"(reservation scheduled on another/the same node, unschedulable, expired, deleted, bound, odd states; pod deleted/replaced/pending; bound pod readiness; clock past TTL; pause; limiter; preemption script; controller restart with same/new uid), " +
 		"2/3 of the histories steered along the happy path; non-trivial = at least one reconcile issued a write; distinct by op lines")
+}
+
+// TestVerifC17Lag: the informer cache the controller reads the job from LAGS.  Every version of the job the controller
+// writes is recorded; a `lagrec k f` reconcile is served the version k writes back (never older than the version the
+// running controller instance started from: a restarted controller LISTs).  The environment never writes the job object.
+func TestVerifC17Lag(t *testing.T) {
+	h := vOpen("C17")
+	if h == nil {
+		t.Skip("VERIF_OUT not set")
+	}
+	tmpl, base := c17Setup()
+	n := h.N(3000, 40000)
+	genK := func(r *vRand) int { return []int{0, 0, 0, 1, 1, 2, 3}[r.Intn(7)] }
+	for idx := 0; idx < n; idx++ {
+		r := h.Begin(idx)
+		if r == nil {
+			continue
+		}
+		var w *c17World
+		faultFree := r.Chance(2, 3)
+		switch idx % 3 {
+		case 0:
+			// directed: a job half way, its reservation just scheduled on another node: the evicting pass makes up to three
+			// status writes (ReservationCreated, ReservationScheduled + node, Evicting); the next reconciles are served 1..3 back
+			w = c17InitCase(h, r, tmpl, base, &c17Fix{midway: true, refShape: r.Intn(4), lag: true})
+			if r.Chance(1, 3) {
+				w.reconcileLag(0, 0) // ReservationCreated written in a pass of its own (reservation still pending)
+			}
+			w.setResv(&c17Resv{phase: 2, node: 2, sched: 1, orderLabel: r.Chance(3, 4)})
+			w.reconcileLag(0, c17GenFaults(r, faultFree))
+			for s, steps := 0, r.Range(1, 3); s < steps; s++ {
+				w.reconcileLag(r.Range(1, 3), 0)
+			}
+			h.Tag("stream:directed-lag-after-evicting-pass")
+		case 1:
+			// directed: a fresh job (with or without its own template): create, schedule, evict, each followed by lagging reads
+			fx := &c17Fix{fresh: true, lag: true}
+			if r.Bool() {
+				fx.tm = c17GenTmpl(r)
+			}
+			w = c17InitCase(h, r, tmpl, base, fx)
+			w.reconcileLag(0, c17GenFaults(r, faultFree))
+			w.reconcileLag(genK(r), 0)
+			if rv := w.curResv(); rv != nil {
+				rv.phase, rv.node, rv.sched, rv.msg = 2, 2, 1, 0
+				w.setResv(rv)
+			}
+			w.reconcileLag(genK(r), c17GenFaults(r, faultFree))
+			w.reconcileLag(r.Range(1, 3), 0)
+			h.Tag("stream:directed-lag-fresh")
+		default:
+			w = c17InitCase(h, r, tmpl, base, &c17Fix{lag: true})
+			h.Tag("stream:random-lag")
+		}
+		helpful := r.Chance(3, 4)
+		for s, steps := 0, r.Range(2, 12); s < steps; s++ {
+			if r.Chance(11, 20) {
+				w.reconcileLag(genK(r), c17GenFaults(r, faultFree))
+			} else {
+				w.envEvent(r, helpful && r.Chance(3, 4))
+			}
+		}
+		w.reconcileLag(genK(r), 0)
+		if faultFree {
+			h.Tag("history:fault-free")
+		}
+		h.Tag(fmt.Sprintf("history:evict-calls=%d/any-api-call-failed=%v", w.evictCalls, w.anyFault))
+		h.End()
+	}
+	h.Close("histories as in TestVerifC17 (1/3 a job half way whose reservation was just scheduled, 1/3 a fresh job with or without its own reservation template, 1/3 random initial job), every reconcile reading the job through a LAGGING informer cache: " +
+		"served the version k = 0..3 controller writes back (k>0 in 4/7 of the reconciles; never older than the version the running controller instance started from), write-fault masks in 1/3 of the histories, " +
+		"environment events without job writes (no pause / arbitration annotation), controller restarts; oracle: evictor calls per job <= 1 while no API call failed; non-trivial = a reconcile issued a write; distinct by op lines")
 }
 
 // ---------- extended streams: read faults, events inside a reconcile, arbitration hand-off, small-scope exhaustive ----------
@@ -1787,4 +2142,76 @@ func TestVerifC17Exhaustive(t *testing.T) {
 	h.Close("EXHAUSTIVE small scope: every history of at most 4 events over {reconcile clean / 3rd write fails / 4th write fails / reservation deleted before the 6th API call / 6th read fails, " +
 		"reservation scheduled on another node / on the pod's node / deleted / consumed by another pod / expired, pod replaced / deleted, clock +TTL, controller restart, arbitration hand-off} " +
 		"from a fresh reservation-first job and from a job half way with a pending reservation; non-trivial = a reconcile issued an API call")
+}
+
+// TestVerifC17LagExhaustive: ALL histories of at most 5 events over a 9-letter alphabet of lagging reconciles and
+// environment events, from three start states (fresh job / fresh job whose own template says allocateOnce=false / a job
+// half way with a pending reservation).
+func TestVerifC17LagExhaustive(t *testing.T) {
+	h := vOpen("C17")
+	if h == nil {
+		t.Skip("VERIF_OUT not set")
+	}
+	tmpl, base := c17Setup()
+	const A, L, S = 9, 5, 3
+	total := 0
+	for l, p := 0, 1; l <= L; l, p = l+1, p*A {
+		total += p
+	}
+	n := S * total
+	if vEnvInt("VERIF_C17_EXH_MAX", 0) > 0 && n > vEnvInt("VERIF_C17_EXH_MAX", 0) {
+		n = vEnvInt("VERIF_C17_EXH_MAX", 0)
+	}
+	for idx := 0; idx < n; idx++ {
+		r := h.Begin(idx)
+		if r == nil {
+			continue
+		}
+		start, code := idx%S, idx/S
+		length, p := 0, 1
+		for code >= p {
+			code -= p
+			p *= A
+			length++
+		}
+		letters := make([]int, length)
+		for i := range letters {
+			letters[i] = code % A
+			code /= A
+		}
+		fx := &c17Fix{fresh: start < 2, midway: start == 2, refShape: 2, lag: true}
+		if start == 1 {
+			fx.tm = &c17Tmpl{ao: 2, userLabel: true}
+		}
+		w := c17InitCase(h, r, tmpl, base, fx)
+		for _, a := range letters {
+			switch a {
+			case 0, 1, 2, 3:
+				w.reconcileLag(a, 0)
+			case 4:
+				w.reconcileLag(0, 4)
+			case 5:
+				rv := w.curResv()
+				if rv == nil {
+					rv = &c17Resv{orderLabel: true}
+				}
+				rv.phase, rv.sched, rv.msg, rv.node = 2, 1, 0, 2
+				w.setResv(rv)
+			case 6:
+				w.consume(7)
+			case 7:
+				w.setPod(nil)
+			default:
+				w.newReconciler()
+				h.Op("restart %d", w.ctrlUID)
+			}
+		}
+		h.Tag(fmt.Sprintf("exhaustive-lag:len=%d", length))
+		h.Tag(fmt.Sprintf("history:evict-calls=%d/any-api-call-failed=%v", w.evictCalls, w.anyFault))
+		h.End()
+	}
+	h.Extra("exhaustive-lag", fmt.Sprintf("all %d histories of <= %d events over %d letters x %d start states", n, L, A, S))
+	h.Close("EXHAUSTIVE small scope: every history of at most 5 events over {reconcile served the newest / 1 / 2 / 3 versions back, reconcile whose 3rd write fails, " +
+		"reservation scheduled on another node, reservation consumed by a sibling pod (scheduler played faithfully), pod deleted, controller restart} " +
+		"from a fresh reservation-first job, a fresh job whose own template says allocateOnce=false, and a job half way with a pending reservation; non-trivial = a reconcile issued a write")
 }
